@@ -78,6 +78,35 @@ def cmd_import(src, name):
         shutil.rmtree(tmp, ignore_errors=True)
 
 
+def cmd_run_in_repo(names, tier):
+    """the brief's own procedure: git -C /repo apply <patch>; run the home check against /repo; git -C /repo
+    checkout -- .  (use only when nothing else reads /repo; evidence/ must be regenerated on the clean tree
+    afterwards)"""
+    names = names or sorted(p.name for p in SEEDED.iterdir() if (p / "patch.diff").exists())
+    for name in names:
+        d = SEEDED / name
+        meta = json.loads((d / "meta.json").read_text())
+        prop = meta.get("property", name[:3])
+        if subprocess.run(["git", "-C", "/repo", "status", "--porcelain", "--untracked-files=no"],
+                          capture_output=True, text=True).stdout.strip():
+            print("refusing: /repo has uncommitted changes"); return
+        try:
+            a = subprocess.run(["git", "-C", "/repo", "apply", str(d / "patch.diff")], capture_output=True, text=True)
+            if a.returncode != 0:
+                print(name, "patch does not apply", a.stderr[-300:]); continue
+            p = subprocess.run([str(VERIF / "check"), prop, "--tier", tier, "--no-build"], capture_output=True,
+                               text=True, timeout=3600)
+            viol = [l for l in p.stdout.splitlines() if l.startswith("VIOLATION")]
+            tag = "detected" if (p.returncode == 1 and viol) else ("clean" if p.returncode == 0 else f"exit{p.returncode}")
+            if viol and "no-failing-input-found" in viol[0]:
+                tag += "(no-input)"
+            print(name, prop, tag, flush=True)
+            meta.setdefault("checks", {})["in_repo_" + tier] = {prop: tag}
+            (d / "meta.json").write_text(json.dumps(meta, indent=1))
+        finally:
+            subprocess.run(["git", "-C", "/repo", "checkout", "--", "."], capture_output=True)
+
+
 def cmd_run(names, allprops, tier):
     names = names or sorted(p.name for p in SEEDED.iterdir() if (p / "patch.diff").exists())
     props_all = [f"C{i:02d}" for i in range(1, 21)]
@@ -117,4 +146,7 @@ if __name__ == "__main__":
     if a and a[0] == "run":
         rest = [x for x in a[1:] if not x.startswith("--")]
         tier = "thorough" if "--thorough" in a else "quick"
-        cmd_run(rest, "--all-props" in a, tier)
+        if "--in-repo" in a:
+            cmd_run_in_repo(rest, tier)
+        else:
+            cmd_run(rest, "--all-props" in a, tier)
